@@ -1,6 +1,6 @@
 #!/bin/bash
 # Re-run every stored seeded change against the quick check of its property, in a scratch worktree of /repo
-# (evidence files in /verif/evidence are overwritten by these runs: re-run the checks on the clean tree afterwards).
+# (tools/try_seed.py diverts the evidence of these runs to /tmp/verif_evidence_scratch).
 wt=${1:-/tmp/regress_repo}
 git -C /repo worktree add -q --detach "$wt" HEAD 2>/dev/null
 out=/tmp/seed_regression.log; : > $out
